@@ -20,13 +20,13 @@ CHECKS = {
     "C08": ("msched", "model_checking", "6/C08", "All schedules of on_run scripts (<=3 invocations, yields/sleeps, Ok(true)/Ok(false)/Err) against message traffic, stop and kill; on_run's first instruction runs in the poll that select! grants it, so a mis-ordered or unbiased select is visible; oracle: zero accepted-but-untaken messages whenever on_run progresses, Ok(false) final, Ok(true) re-armed, Err -> on_stop(false) + Failed."),
     "C09": ("c09", "model_checking", "6/C09", "All schedules of cap+2 tells (+stop) from 1-3 clients against capacities 1-3 and the spawn() default with a parked actor; oracle: harness-side occupancy never exceeds the capacity, a sender that is still blocked at a quiescent point implies no free slot, tells to a live actor never fail; capacity 0 panics. Configuration clause (procenum): every call sequence of length <=3 (4) over {set(0), set(1), set(2), set(5), spawn-and-measure, spawn_with_capacity(0), spawn_with_capacity(3)-and-measure}, one fresh process each, compared with a reference model Option<usize>; spawn-and-measure counts how many tells complete against an actor parked in on_start."),
     "C10": ("msched", "model_checking", "6/C10", "Whole schedule tree under a virtual clock for every timeout value x natural completion time x mailbox state x actor death; oracle: Timeout exactly at the deadline and only if completion was not strictly earlier, Ok at the instant of completion, other errors at the instant they arise, is_retryable <=> Timeout."),
-    "C11": ("msched", "model_checking", "6/C11", "All schedules of derivation chains over every handle kind with identity/is_alive/upgrade probes at every lifecycle point and after every termination cause; oracle: identity equals the spawn's, ids distinct, is_alive true before the end begins / false after join, upgrade agrees with harness-side reference bounds."),
-    "C13": ("msched", "model_checking", "6/C13", "All schedules of every pair of tell/ask-family operations against an actor in each lifecycle state (live, parked, full, stopping, dead by four causes), direct and erased, build with test-utils; oracle: exactly one dead letter with matching reason/target/type/operation per failure, none per success, counter delta = failures."),
+    "C11": ("msched", "model_checking", "6/C11", "All schedules of derivation chains over every handle kind with identity/is_alive/upgrade probes at every lifecycle point and after every termination cause; oracle: identity equals the spawn's, ids distinct, is_alive true before the end begins / false after join, upgrade agrees with harness-side reference bounds. Thread level (tsched, hook H4): every interleaving between 2-3 real OS threads of the operations on the process-wide state involved here is explored as well - 3x2 and 2x3 concurrent spawns through both entry points, ids pairwise distinct."),
+    "C13": ("msched", "model_checking", "6/C13", "All schedules of every pair of tell/ask-family operations against an actor in each lifecycle state (live, parked, full, stopping, dead by four causes), direct and erased, build with test-utils; oracle: exactly one dead letter with matching reason/target/type/operation per failure, none per success, counter delta = failures. Thread level (tsched, hook H4): every interleaving between 2-3 real OS threads of the operations on the process-wide state involved here is explored as well - 3x2 and 2x3 failing tell/ask/blocking_tell against an ended actor, counter delta = records = failures."),
     "C17": ("bthreads", "exploration", "6/C17", "Operation-level exhaustive, thread-level free-running: every order of the operations of 2-4 callers (plain threads, spawn_blocking tasks, async tasks calling the timeout variants, async senders, gate openings, stop/kill) in 19 (20) scenarios - gated handler with capacity 1, timeouts against a full mailbox and a silent actor, actor stopped/killed under blocking callers, deprecated aliases, calls from inside the runtime, extreme timeout values, a bounded ask that gives up before the actor dies - handler panics under parked callers and under a waiting asker, a long next to a short deadline, callers inside a current-thread runtime - is run on the real code with real OS threads (build with test-utils); oracle: at most once, failed sends never handled, accepted ones handled, reply integrity, order of handling vs. observed completion and per-thread program order, Timeout never early and back by deadline + 0.8 s, aliases never time out, no panic, one dead letter per failed delivery naming target, message type and a reason matching the error, on_tell_result exactly once after a tell and never after an ask. A violation must recur when the same order is run again."),
     "C19": ("c19", "model_checking", "6/C19", "Two exhaustive parts. (a) Bounded-exhaustive program enumeration: all 420 programs of the grammar actor shape x return-type spelling x #[handler] option x message genericity/extra methods (each with a no_log and a plain Result neighbour handler) are compiled against the real macros; the 180 that an independent decision table (tools/gen_corpus.py, written from the documentation) says must compile are run for tell/ask x Ok/Err and compared with the table (Reply type equality, ask value, exactly one error log naming actor+message iff the table says so, never after ask, derive(Actor) infallible and on_start = identity); the 240 invalid combinations must be rejected, with the documented diagnostic where the macro itself diagnoses. (b) msched: all schedules of the C01 scenario family plus Result-returning messages with a hand-written on_tell_result: exactly once after a tell with the handler's value, never after an ask - including asks whose caller gave up."),
     "C12": ("msched2", "model_checking", "6/C12", "All schedules (bound 2/3, capped per scenario) of a three-actor system (victim V, peers P and Q exchanging asks with V and with each other, two clients) with a crash injected at every hook of V - on_start panic/error, three different handlers, first and second on_run (panic and error), on_stop panic/error - and, in the all-features build, a provoked deadlock-detection panic (self-ask, and a genuine cycle with a peer); run on the all-features build and on the default build; oracle: the victim's JoinHandle reports the panic/failure, no on_stop after a panic, its senders get errors, the C01-C05/C08/C11 oracles hold for every surviving actor, dead-letter accounting is exact (C13 oracle), follow-up asks between survivors and to a freshly spawned actor succeed, ids advance, the wait-for graph is empty and its lock not poisoned."),
-    "C14": ("msched", "model_checking", "6/C14", "Whole schedule tree (quick bound 3, in practice exhaustive) of ask rings of length 1-3 (4 thorough) whose edges are issued from every hook (on_start, handler, on_run, on_stop) and with every ask flavour (ask, ask_with_timeout, erased AskHandler), each edge with its own trigger so that the schedule decides the creation order, plus nested chains; build with deadlock-detection; oracle: an ask that closes a cycle of unanswered in-flight asks (harness-side relation) panics at once with a message naming every actor of the cycle, nobody is left waiting at global quiescence, the wait-for graph (hook H1) contains the edge of every blocked asker."),
-    "C15": ("msched", "model_checking", "6/C15", "Same rings (where in most schedules the asks do not all overlap) plus acyclic-in-time/cyclic-in-topology families with every way an ask can end (reply, timeout, callee killed, callee panics, on_run cancelled), 2 and 3 actors, typed and erased; oracle: every Deadlock panic is justified by a chain of unanswered in-flight asks at that instant, only pending asks of their owner appear in the graph (H1), non-actor callers never appear or panic, the graph is empty once every ask has finished. This check found defect D1 (see known_findings.json), repaired by the fix: commit."),
+    "C14": ("msched", "model_checking", "6/C14", "Whole schedule tree (quick bound 3, in practice exhaustive) of ask rings of length 1-3 (4 thorough) whose edges are issued from every hook (on_start, handler, on_run, on_stop) and with every ask flavour (ask, ask_with_timeout, erased AskHandler), each edge with its own trigger so that the schedule decides the creation order, plus nested chains; build with deadlock-detection; oracle: an ask that closes a cycle of unanswered in-flight asks (harness-side relation) panics at once with a message naming every actor of the cycle, nobody is left waiting at global quiescence, the wait-for graph (hook H1) contains the edge of every blocked asker. Thread level (tsched, hook H4): every interleaving between 2-3 real OS threads of the operations on the process-wide state involved here is explored as well - ask rings of 2 and 3 actors each on its own thread and runtime, and a ring with a bystander: exactly one ring member panics, naming the ring; nobody is left waiting."),
+    "C15": ("msched", "model_checking", "6/C15", "Same rings (where in most schedules the asks do not all overlap) plus acyclic-in-time/cyclic-in-topology families with every way an ask can end (reply, timeout, callee killed, callee panics, on_run cancelled), 2 and 3 actors, typed and erased; oracle: every Deadlock panic is justified by a chain of unanswered in-flight asks at that instant, only pending asks of their owner appear in the graph (H1), non-actor callers never appear or panic, the graph is empty once every ask has finished. This check found defect D1 (see known_findings.json), repaired by the fix: commit. Thread level (tsched, hook H4): every interleaving between 2-3 real OS threads of the operations on the process-wide state involved here is explored as well - the same rings: never more than one victim, never the bystander, graph empty at the end."),
     "C16": ("diff", "model_checking", "6/C16", "Differential model checking: for every direct program (2 clients, <=3 (4) operations over tell/ask/timeouts/stop/kill/is_alive/drop, weak handles around the actor's end, futures created but not awaited) the whole schedule tree of the direct run and of each erased variant (owned From, borrowed From, clone_boxed, boxed downgrade/upgrade round trip; one or both clients) is explored on the real code; same schedule must give the same observable trace (results, errors, hook traces, virtual timing, dead letters, termination), else the two sets of traces of the complete trees must be equal."),
     "C18": ("features", "model_checking", "6/C18", "The same 690 cycle-free scenarios (drawn from the grammars of C01-C13 plus hooks asking other actors without asking back) are explored (preemption bound 2) by one harness build per rsactor feature set - default, each single feature and all four (quick), all 16 subsets (thorough); per scenario the hash over all (schedule, feature-neutral observable trace) pairs must equal the default build's."),
     "C20": ("msched", "model_checking", "6/C20", "All schedules (bound 2/3) of message sequences <=3 (4) with fast, busy (2 ms real time) and yielding handlers, a panicking handler, each termination cause, 1-2 concurrent metrics readers through strong and weak-upgraded handles, build with metrics; oracle: every read of message_count lies between handlers finished and handlers entered at that position and never decreases per reader, after the end it equals handlers entered, avg <= max, max >= the longest busy handler, snapshot == accessors, same final values through every handle."),
@@ -34,6 +34,7 @@ CHECKS = {
 
 PROPS = [json.loads(l) for l in open(os.path.join(ROOT, "properties.jsonl"))]
 
+TS = "; plus thread-level stateless model checking (tsched): exhaustive DFS over the interleavings, between real OS threads, of every operation on the process-wide atomics and the wait-for graph lock (hook H4)"
 BT = "; plus exhaustive enumeration of operation-level orders of real OS threads (bthreads) for the blocking_* forms"
 TECH = {
     "C01": MSCHED_TECH + BT,
@@ -41,10 +42,11 @@ TECH = {
     "C05": MSCHED_TECH + "; plus exhaustive enumeration of all 18 ActorResult shapes",
     "C09": MSCHED_TECH + BT + "; plus exhaustive enumeration of call sequences (one fresh process each) against a reference model",
     "C10": MSCHED_TECH + " under a virtual clock" + BT + "; plus exhaustive enumeration of the Error variants",
-    "C11": MSCHED_TECH + " (decides); a sampling multi-thread stress run is reported alongside, labelled non-deciding",
+    "C11": MSCHED_TECH + TS + " (decide); a sampling multi-thread stress run is reported alongside, labelled non-deciding",
     "C12": MSCHED_TECH + ", on two builds" + BT,
-    "C13": MSCHED_TECH + BT + " (decide); a sampling multi-thread stress run of the counter is reported alongside, labelled non-deciding",
-    "C14": MSCHED_TECH + "; plus exhaustive enumeration of all acyclic functional graphs with <= 5 (6) nodes for the wait-for walk",
+    "C13": MSCHED_TECH + BT + TS + " (decide); a sampling multi-thread stress run of the counter is reported alongside, labelled non-deciding",
+    "C15": MSCHED_TECH + TS,
+    "C14": MSCHED_TECH + TS + "; plus exhaustive enumeration of all acyclic functional graphs with <= 5 (6) nodes for the wait-for walk",
     "C16": "differential stateless model checking: the whole schedule tree of a direct program and of each type-erased variant, same schedule => same observable trace" + BT,
     "C17": "exhaustive enumeration of operation-level orders of real OS threads driving the blocking API of the real code (thread timing inside one operation is free-running)",
     "C18": "stateless model checking per cargo-feature build: one harness build per feature set explores the same scenarios; per-scenario hash over all (schedule, feature-neutral trace) pairs compared with the default build",
@@ -77,7 +79,7 @@ manifest = {
         "guard": "--cfg rsactor_verif",
         "enable": "RUSTFLAGS='--cfg rsactor_verif --cfg tokio_unstable' cargo build --release (in /verif/harness, rsactor as path dependency on /repo); done by ./check",
         "baseline_off_cmd": "cd /repo && (cargo nextest run --workspace --no-fail-fast --tool-config-file pb:/w/lib/nextest.toml --profile pb --test-threads 8 --offline || cargo test --workspace --no-fail-fast --offline)",
-        "source_commits": ["cf7291f", "bef39fe"],
+        "source_commits": ["cf7291f", "bef39fe", "895d681"],
         "add_only": True,
     },
     "engines": [
@@ -85,6 +87,7 @@ manifest = {
          "kind_free_text": "controlled deterministic task scheduler + virtual clock on a real tokio current-thread runtime running the real rsactor code; stateless DFS with replay, preemption-bounded; also hosts the differential (C16), per-feature-build (C18), procenum (C09) and bthreads (C17) drivers as subcommands of the same binary"},
         {"name": "bthreads", "path": "/verif/harness/src/bthreads.rs", "serves_properties": ["C17"], "kind_free_text": "real OS threads driven through every operation-level order by a coordinator"},
         {"name": "macrocorpus", "path": "/verif/tools/gen_corpus.py", "serves_properties": ["C19"], "kind_free_text": "bounded-exhaustive generation of macro input programs + independent decision table; compiled against the real macros"},
+        {"name": "tsched", "path": "/verif/harness/src/tsched.rs", "serves_properties": ["C11", "C13", "C14", "C15"], "kind_free_text": "controlled scheduler for real OS threads: every operation on rsactor's process-wide atomics / graph lock (hook H4) is a scheduling point; stateless DFS over all interleavings"},
         {"name": "procenum", "path": "/verif/check", "serves_properties": ["C09"], "kind_free_text": "one fresh process per call sequence against the process-wide default capacity, compared with a reference model"},
     ],
     "checks": checks,
